@@ -1,28 +1,9 @@
 import Storrent.Model.PeerOut
+import Storrent.Lemmas.RequestsInv
 /- What every emission of every step guarantees locally (from the checks made right before
    the write), and the state facts carried through every sub-function: the geometry never
    changes and the queue only holds chunk numbers the scheduler named. -/
 namespace Storrent.Requests
-
-theorem mem_swapRemove {α : Type} {l : List α} {i : Nat} {x : α} (h : x ∈ swapRemove l i) : x ∈ l := by
-  unfold swapRemove at h
-  simp only at h
-  cases hb : (l.drop (i + 1)).getLast? with
-  | none => rw [hb] at h; exact List.mem_of_mem_take h
-  | some y =>
-    rw [hb] at h
-    simp only [List.mem_append, List.mem_cons] at h
-    rcases h with h | h | h
-    · exact List.mem_of_mem_take h
-    · subst h; exact List.mem_of_mem_drop (List.mem_of_getLast? hb)
-    · exact List.mem_of_mem_drop (List.dropLast_subset _ h)
-
-theorem findIdx_some {l : List Req} {c i : Nat} (h : findIdx l c = some i) :
-    ∃ r, l[i]? = some r ∧ r.index = c := by
-  unfold findIdx at h
-  rw [List.findIdx?_eq_some_iff_getElem] at h
-  obtain ⟨hi, hp, _⟩ := h
-  exact ⟨l[i], List.getElem?_eq_getElem hi, by simpa using hp⟩
 
 theorem cancel_queue (rs : Requests) (c : Nat) : (cancel rs c).1.queue = rs.queue := by
   unfold cancel
@@ -147,9 +128,10 @@ def EmLocal (H : Nat → Prop) (e : Emission) : Prop :=
 section
 variable (ps0 : UInt32) (len0 N : Nat)
 
-/-- carried state facts: constant geometry, queue entries below `N` -/
+/-- carried state facts: constant geometry; queued and sent chunk numbers below `N` and the
+    representation invariant of `Requests` (`RQ`) -/
 def SI (p : Peer) : Prop :=
-  p.ps = ps0 ∧ p.length = len0 ∧ ∀ r, r ∈ p.requests.queue → r.index < N
+  p.ps = ps0 ∧ p.length = len0 ∧ RQ N p.requests
 
 def CtxOK (H : Nat → Prop) (c : Ctx) : Prop :=
   SI ps0 len0 N c.p ∧ ∀ e, e ∈ c.emits → SI ps0 len0 N e.pre ∧ EmLocal H e
@@ -157,7 +139,7 @@ def CtxOK (H : Nat → Prop) (c : Ctx) : Prop :=
 variable {ps0 len0 N}
 
 theorem SI_of_eq {p p' : Peer} (h : SI ps0 len0 N p) (h1 : p'.ps = p.ps) (h2 : p'.length = p.length)
-    (h3 : p'.requests.queue = p.requests.queue) : SI ps0 len0 N p' := by
+    (h3 : p'.requests = p.requests) : SI ps0 len0 N p' := by
   unfold SI at *
   rw [h1, h2, h3]; exact h
 
@@ -235,10 +217,8 @@ theorem maybeRequestLoop_ok {H : Nat → Prop} (K : Option Nat) : ∀ (fuel : Na
           · exact ⟨hc.1, hc.2⟩
           · rename_i q rs1 hdq
             obtain ⟨hqueue, hreq⟩ := dequeue_spec hdq
-            have hSI1 : SI ps0 len0 N { c.p with requests := rs1 } := by
-              refine ⟨hc.1.1, hc.1.2.1, ?_⟩
-              intro r hr
-              exact hc.1.2.2 r (by rw [hqueue]; exact List.mem_cons_of_mem _ hr)
+            obtain ⟨hrq1, hqN, _, _⟩ := RQ_dequeue hc.1.2.2 hdq
+            have hSI1 : SI ps0 len0 N { c.p with requests := rs1 } := ⟨hc.1.1, hc.1.2.1, hrq1⟩
             have hc1 : CtxOK ps0 len0 N H { c with p := { c.p with requests := rs1 } } :=
               ⟨hSI1, hc.2⟩
             split
@@ -276,11 +256,7 @@ theorem maybeRequestLoop_ok {H : Nat → Prop} (K : Option Nat) : ∀ (fuel : Na
                   · rename_i rs2 her
                     apply maybeRequestLoop_ok K fuel
                     refine ⟨?_, hw.2⟩
-                    refine ⟨hw.1.1, hw.1.2.1, ?_⟩
-                    intro r hr
-                    simp only at hr
-                    rw [enqueueRequest_queue her] at hr
-                    exact hw.1.2.2 r hr
+                    exact ⟨hw.1.1, hw.1.2.1, RQ_enqueueRequest hw.1.2.2 hqN her⟩
 
 theorem maybeRequest_ok {H : Nat → Prop} (K : Option Nat) {c : Ctx} (hc : CtxOK ps0 len0 N H c) :
     CtxOK ps0 len0 N H (maybeRequest K c) := by
@@ -326,11 +302,11 @@ theorem cancelChunk_ok {H : Nat → Prop} {c : Ctx} (hc : CtxOK ps0 len0 N H c) 
     | mk rs1 fs =>
       obtain ⟨found, send⟩ := fs
       simp only
-      have hq1 : rs1.queue = c.p.requests.queue := by
-        have := cancel_queue c.p.requests chunk
+      have hq1 : RQ N rs1 := by
+        have := RQ_cancel hc.1.2.2 chunk
         rw [hcan] at this; exact this
       have hc1 : CtxOK ps0 len0 N H { c with p := { c.p with requests := rs1 } } :=
-        ⟨SI_of_eq hc.1 rfl rfl hq1, hc.2⟩
+        ⟨⟨hc.1.1, hc.1.2.1, hq1⟩, hc.2⟩
       cases found with
       | true =>
         simp only [if_true]
@@ -348,7 +324,7 @@ theorem cancelChunk_ok {H : Nat → Prop} {c : Ctx} (hc : CtxOK ps0 len0 N H c) 
           simp only
           obtain ⟨hsub, hrr⟩ := del_spec (ro := false) hdel
           have hc2 : CtxOK ps0 len0 N H { c with p := { c.p with requests := rs2 } } :=
-            ⟨⟨hc.1.1, hc.1.2.1, fun x hx => hc.1.2.2 x (hsub x hx)⟩, hc.2⟩
+            ⟨⟨hc.1.1, hc.1.2.1, RQ_del hc.1.2.2 hdel⟩, hc.2⟩
           cases r with
           | true =>
             -- unreachable: `Cancel` would have found the request
@@ -365,11 +341,11 @@ theorem cancelChunk_ok {H : Nat → Prop} {c : Ctx} (hc : CtxOK ps0 len0 N H c) 
 /-- the loop of `Requests.Expire` with the peer's callbacks -/
 theorem expireLoop_ok {H : Nat → Prop} (a0 a1 : Nat) : ∀ (fuel i : Nat) (rs : Requests) (st : Ctx)
     (d : Bool) (rs' : Requests) (st' : Ctx) (d' : Bool),
-    CtxOK ps0 len0 N H st → (∀ r, r ∈ rs.queue → r.index < N) →
+    CtxOK ps0 len0 N H st → RQ N rs →
     expireLoop (σ := Ctx) (fun ch st => drop st ch)
       (fun rsBefore r st => docancel st { st.p with requests := rsBefore } r.index)
       a0 a1 fuel i rs st d = some (rs', st', d') →
-    CtxOK ps0 len0 N H st' ∧ (∀ r, r ∈ rs'.queue → r.index < N)
+    CtxOK ps0 len0 N H st' ∧ RQ N rs'
   | 0, i, rs, st, d, rs', st', d', hc, hq, h => by
     unfold expireLoop at h
     cases h
@@ -386,18 +362,17 @@ theorem expireLoop_ok {H : Nat → Prop} (a0 a1 : Nat) : ∀ (fuel i : Nat) (rs 
           simp only at h
           split at h
           · cases h
-          · have hq2 : ∀ x, x ∈ rs2.queue → x.index < N := by
-              have := delRequested_queue rs r.index
+          · have hq2 : RQ N rs2 := by
+              have := RQ_delRequested hq r.index
               rw [hdr] at this
-              simp only at this
-              rw [this]; exact hq
+              exact this
             exact expireLoop_ok a0 a1 fuel i rs2 _ true rs' st' d' (drop_ok hc _) hq2 h
       · split at h
         · rename_i hnc
           simp only [Bool.and_eq_true, Bool.not_eq_true', decide_eq_true_eq] at hnc
           refine expireLoop_ok a0 a1 fuel (i + 1)
             { rs with requested := rs.requested.set i { r with cancelled := true, cage := 1 } }
-            _ d rs' st' d' ?_ (fun x hx => hq x hx) h
+            _ d rs' st' d' ?_ (RQ_mark hq hr rfl) h
           apply docancel_ok hc
           · exact ⟨hc.1.1, hc.1.2.1, hq⟩
           · exact ⟨r, List.mem_of_getElem? hr, rfl, hnc.1⟩
@@ -453,7 +428,7 @@ theorem handle_ok (p : Peer) (op : Op) (hp : SI ps0 len0 N p)
     (hop : ∀ ch, ch ∈ op.chunks → ch < N) :
     CtxOK ps0 len0 N (fun i => ∃ h, op = .eHave i h) (handle p op).1 := by
   have init : ∀ {p' : Peer}, p'.ps = p.ps → p'.length = p.length →
-      p'.requests.queue = p.requests.queue →
+      p'.requests = p.requests →
       CtxOK ps0 len0 N (fun i => ∃ h, op = .eHave i h) { p := p' } :=
     fun h1 h2 h3 => CtxOK_init (SI_of_eq hp h1 h2 h3)
   cases op with
@@ -461,10 +436,7 @@ theorem handle_ok (p : Peer) (op : Op) (hp : SI ps0 len0 N p)
     simp only [handle]
     apply dropAll_ok
     apply CtxOK_init
-    refine ⟨hp.1, hp.2.1, ?_⟩
-    intro r hr
-    simp only [clear_queue] at hr
-    cases hr
+    exact ⟨hp.1, hp.2.1, RQ_clear hp.2.2 _⟩
   | mUnchoke => exact init rfl rfl rfl
   | mHave i =>
     simp only [handle]
@@ -504,8 +476,7 @@ theorem handle_ok (p : Peer) (op : Op) (hp : SI ps0 len0 N p)
           apply maybeRequest_ok
           have hc : CtxOK ps0 len0 N (fun j => ∃ h, Op.mReject i b K = .eHave j h)
               { p := { p with requests := (delRequested p.requests ch.toNat).1 } } :=
-            init (p' := { p with requests := (delRequested p.requests ch.toNat).1 }) rfl rfl
-              (delRequested_queue _ _)
+            CtxOK_init ⟨hp.1, hp.2.1, RQ_delRequested hp.2.2 _⟩
           split
           · exact drop_ok hc _
           · exact hc
@@ -524,7 +495,7 @@ theorem handle_ok (p : Peer) (op : Op) (hp : SI ps0 len0 N p)
             apply maybeRequest_ok
             have hc : CtxOK ps0 len0 N (fun j => ∃ h, Op.mPiece i b len n K = .eHave j h)
                 { p := { p with requests := rs } } :=
-              CtxOK_init ⟨hp.1, hp.2.1, fun x hx => hp.2.2 x (hsub x hx)⟩
+              CtxOK_init ⟨hp.1, hp.2.1, RQ_del hp.2.2 hdel⟩
             split
             · exact drop_ok hc _
             · exact hc
@@ -554,11 +525,7 @@ theorem handle_ok (p : Peer) (op : Op) (hp : SI ps0 len0 N p)
         · split
           · have hc1 : CtxOK ps0 len0 N (fun i => ∃ h, Op.eRequest chunks K = .eHave i h)
                 { c with p := { c.p with requests := (enqueue c.p.requests ch).1 } } := by
-              refine ⟨⟨hc.1.1, hc.1.2.1, ?_⟩, hc.2⟩
-              intro x hx
-              rcases enqueue_queue hx with h | h
-              · exact hc.1.2.2 x h
-              · rw [h]; exact hch
+              exact ⟨⟨hc.1.1, hc.1.2.1, RQ_enqueue hc.1.2.2 hch⟩, hc.2⟩
             split
             · exact hc1
             · exact drop_ok hc1 _
@@ -616,7 +583,7 @@ theorem handle_ok (p : Peer) (op : Op) (hp : SI ps0 len0 N p)
     · exact maybeRequest_ok K h1
     · exact h1
   | sendPex => exact sendPex_ok (CtxOK_init hp)
-  | age d => exact init rfl rfl rfl
+  | age d => exact CtxOK_init ⟨hp.1, hp.2.1, RQ_age hp.2.2 d⟩
   | drain k => exact init rfl rfl rfl
   | wblock b => exact init rfl rfl rfl
 
